@@ -33,12 +33,25 @@ func (db *DatabaseContext) DeleteRole(ctx context.Context, name string, purge bo
 		return base.ErrNotFound
 	}
 
+	// A purge removes the role document, so there is nothing to carry a sequence
+	if purge {
+		return authenticator.DeleteRole(role, purge, 0)
+	}
+
 	seq, err := db.sequences.nextSequence(ctx)
 	if err != nil {
 		return err
 	}
 
-	return authenticator.DeleteRole(role, purge, seq)
+	err = authenticator.DeleteRole(role, purge, seq)
+	// If the role was not updated, release the sequence allocated for it to avoid an abandoned sequence. For timeout
+	// errors the write may or may not have succeeded, so the sequence cannot be released as unused.
+	if err != nil && !base.IsTimeoutError(err) {
+		if seqErr := db.sequences.releaseSequence(ctx, seq); seqErr != nil {
+			base.InfofCtx(ctx, base.KeyAuth, "Error releasing unused sequence %d after failed delete of role %s: %v", seq, base.UD(name), seqErr)
+		}
+	}
+	return err
 }
 
 // UpdatePrincipal updates or creates a principal from a PrincipalConfig structure.
